@@ -124,6 +124,18 @@ class Check(FormulaCheck):
                 if ok and exact_multiple:
                     ok, why = abs(R - X) <= b, 'exact-multiple-not-preserved'
                 self.expect('C17/%s:%s%s' % (fn, why, ':negative-digits' if d < 0 else ''), ok, x=x, digits=d, got=r)
+            # whole numbers of any size: a multiple of 10^-digits within half a unit of a whole number is found in whole-number arithmetic -
+            # exactly, not "within a few ulps"
+            bx = rnd.choice([1, -1]) * rnd.choice([2 ** 52 + 1, 2 ** 53 + 1, 10 ** 15 + 5, 45035996273704970 + rnd.randint(0, 9), 10 ** 12 + 1, rnd.randint(2 ** 52, 2 ** 62), rnd.randint(0, 10 ** 6)])
+            bd = rnd.randint(-6, 6)
+            r = self.ev('ROUND(v_x,v_d)', v_x=bx, v_d=bd)
+            rec.nt(('ROUND-whole', bx, bd))
+            if bd >= 0:
+                ok = finite(r) and Fr(r) == bx
+            else:
+                bu = 10 ** (-bd)
+                ok = finite(r) and Fr(r).denominator == 1 and int(Fr(r)) % bu == 0 and abs(Fr(r) - bx) * 2 <= bu
+            self.expect('C17/ROUND:whole-number-not-rounded-exactly', ok, x=hex(bx), digits=bd, got=hex(int(r)) if (finite(r) and Fr(r).denominator == 1) else r)
             s = rnd.choice([1, -1]) * rnd.choice([1, 2, 5, 10, 0.5, 0.25, 0.1, 0.05, 3, 7, 100, 1.5, rnd.randint(1, 50), round(rnd.uniform(0.01, 20), 2)])
             for fn in ('CEILING', 'FLOOR'):
                 r = self.ev('%s(v_x,v_s)' % fn, v_x=x, v_s=s)
